@@ -37,6 +37,19 @@ CLAIMED = {
         "note": "Numeric equality of targets across channels is NOT decided; label normalisation of individual cells (whitespace, digits) is data-dependent and NOT decided. "
                 "Trusted: CPython ast, re._parser, the installed pandas attribute table.",
     },
+    "C11": {
+        "category": "other",
+        "technique": "static analysis: interprocedural parameter-effect summaries (mutates / escapes) for mutable defaults; module- and class-level state write scan over the "
+                     "service call-graph cone; flow-sensitive may-alias ownership taint (caller-owned / fresh container of owned elements / fresh) from the service and wrapper entry "
+                     "parameters with field-sensitive heap summary",
+        "text": "Decides C11 by proving the ABSENCE of every construct that can carry state from one call to the next or write into the caller's object: "
+                "(E1) no mutable default argument is mutated or escapes; (E2) no function reachable from the service writes module-level or class-level state; "
+                "(E3) no attribute store, container store or mutating call reaches an object owned by the caller - the deep copy at the service entry cuts the taint, "
+                "and the rule fires as soon as it is removed, made conditional or made shallow. Absence of a construct holds for all call histories at once.",
+        "design_ref": "DESIGN.md 3.2 EFFECT",
+        "note": "Assumes numpy / pydantic / CoolProp are deterministic and keep no cross-call state that affects results; bit-exact equality with a fresh interpreter is not decided. "
+                "Declared exceptions (one symbol each, with reason, in rules/effect.py): StreamCollection sort cache fields, utils.decorators timing counters/logger, classes.value.ureg.",
+    },
 }
 
 _NOT_BUILT = "claimed in DESIGN.md but the check is not built yet in this round"
